@@ -127,6 +127,64 @@ def compare(rep, a, before, after, beh, step, src_before, src_after):
                           {"history": beh, "step": step, "files": diff[:8], "source_before": src_before, "source_after": src_after})
 
 
+# an unrelated bridge MODULE whose types carry the NAMES of types of the base program (same kind), told apart by namespace
+# where the backend has namespaces and by a rename elsewhere: InsertUnrelated of Determinism.tla with u's name taken
+CLASH = """#[diplomat::bridge]
+#[diplomat::abi_rename = "z_{0}"]
+pub mod mz {
+    #[diplomat::attr(supports = namespacing, namespace = "zz")]
+    #[diplomat::attr(not(supports = namespacing), rename = "GammaZ")]
+    pub enum Gamma {
+        Nine,
+        Ten,
+        Eleven,
+    }
+    impl Gamma {
+        pub fn is_nine(self) -> bool { matches!(self, Gamma::Nine) }
+    }
+    #[diplomat::attr(supports = namespacing, namespace = "zz")]
+    #[diplomat::attr(not(supports = namespacing), rename = "BetaZ")]
+    pub struct Beta {
+        pub p: f64,
+        pub g: Gamma,
+    }
+    impl Beta {
+        pub fn pee(self) -> f64 { self.p }
+    }
+    #[diplomat::attr(supports = namespacing, namespace = "zz")]
+    #[diplomat::attr(not(supports = namespacing), rename = "AlphaZ")]
+    #[diplomat::opaque]
+    pub struct Alpha(u8);
+    impl Alpha {
+        pub fn zed(&self) -> u8 { self.0 }
+    }
+}
+"""
+
+
+def same_named_leg(rep, wd, base_src, base_out):
+    """LocalFrame for an inserted module whose types are NAMED like existing ones: every file the base program produced is still
+    produced, byte for byte (aggregates exempt).  Backends that refuse the name clash altogether are outside the comparison."""
+    out2 = gen(wd, base_src + "\n" + CLASH, "clash")
+    compared = 0
+    for b in lib.BACKENDS:
+        x, y = base_out[b], out2[b]
+        if x["rc"] != 0 or y["rc"] != 0:
+            continue
+        compared += 1
+        keep = lambda f: f not in AGGREGATE and os.path.basename(f) not in AGGREGATE
+        diff = sorted(f for f, v in x["tree"].items() if keep(f) and y["tree"].get(f) != v)
+        if diff:
+            rep.violation({"action": "InsertUnrelated", "backend": b, "what": "output changed", "detail": "module with same-named types"},
+                          {"files": diff[:8], "source_after": base_src + "\n" + CLASH})
+        rep.nontriv("%s|InsertUnrelated|same-named module" % b)
+    if compared < 3:
+        raise lib.ToolError("same-named leg: only %d backends accept the program with the name clash: %s" % (
+            compared, {b: out2[b]["stderr"][-200:] for b in lib.BACKENDS if out2[b]["rc"] != 0}))
+    rep.extra["same_named_backends_compared"] = compared
+    return 1
+
+
 def run(rep, tier):
     wd = rep.wd
     rep.rule = ("histories = TLC-simulated edit sequences (rerun, swap adjacent items/modules, insert/remove an unrelated type, add/remove "
@@ -207,6 +265,7 @@ def run(rep, tier):
             for b in lib.BACKENDS:
                 rep.nontriv("%s|%s|%s" % (b, a["a"], json.dumps({k: v for k, v in a.items() if k != "a"}, sort_keys=True)))
             mods, extras, cur_src, cur = mods2, extras2, src2, out2
+    nsteps += same_named_leg(rep, wd, base_src, base_out)
     rep.evaluations += nsteps * len(lib.BACKENDS)
     rep.traces += len(behs)
     rep.sample({"history": behs[0], "final_source": cur_src[:1500]})
